@@ -91,8 +91,18 @@ def gen_early_exit(rng, idx):
     size = rng.choice([200000, 1048576])
     n = rng.choice([1, 100, 5000])
     tag = "e%d" % idx
-    text = "gen %d %d | filt --exit-after %d >/dev/null\n" % (size, idx, n)
-    text += 'echo "@st.%s $? ${PIPESTATUS[*]}"\n' % tag
+    form = rng.choice(["filt", "filt", "head", "read", "pre"])
+    pf = rng.random() < 0.5        # under pipefail the writer's 141 is the pipeline's status
+    if form == "filt":
+        pipe = "gen %d %d | filt --exit-after %d >/dev/null" % (size, idx, n)
+    elif form == "head":
+        pipe = "gen %d %d | head -n 1 >/dev/null" % (size, idx)
+    elif form == "read":
+        pipe = "gen %d %d | { read -r l; }" % (size, idx)
+    else:
+        pipe = "( exit 3 ) | gen %d %d | head -n 1 >/dev/null" % (size, idx)
+    text = ("set -o pipefail\n" if pf else "") + pipe + "\n"
+    text += 'echo "@st.%s $? ${PIPESTATUS[*]}"\n' % tag + ("set +o pipefail\n" if pf else "")
     return text, {"tag": tag, "kind": "early_exit", "size": size}
 
 
@@ -135,6 +145,18 @@ def gen_subst_inproc(rng, idx, multi_cpu=False):
     text = 'big=$(gen %d %d)\nf_big() { echo "$big"; }\nv=$(%s)\necho "@sx.%s $? ${#v}"\n' % (size, idx, body, tag)
     text += 'printf "%%s" "$v" | sink -o "$L" -t .%sv\n' % tag
     return text, {"tag": tag, "kind": "subst", "size": size, "form": "inproc-" + form, "depth": 1}
+
+
+def gen_subst_mb(rng, idx):
+    """Multi-byte output on both sides of read-buffer boundaries: every byte must come back (a character split by a read
+    boundary must not be damaged)."""
+    # whole lines only: output cut inside a character is not valid UTF-8, which brush cannot hold in a variable (open finding C11-F2)
+    size = rng.choice([10, 700, 1366, 1400, 2731, 9000, 20000])
+    unit = rng.choice(["a€b", "€€€", "héllo wörld", "🚀x", "é", "€€€€€€€€€"])
+    tag = "m%d" % idx
+    text = "v=$(yes '%s' | head -n %d)\necho \"@sx.%s $? ${#v}\"\n" % (unit, size, tag)
+    text += 'printf "%%s" "$v" | cksum | { read -r a b; echo "@ck.%s $a $b"; }\n' % tag
+    return text, {"tag": tag, "kind": "subst", "size": 0, "form": "multibyte", "depth": 1}
 
 
 def gen_subst_status(rng, idx):
@@ -183,8 +205,10 @@ def build_script(rng, n, multi_cpu=False):
             t, m = gen_subst(rng, i)
         elif r < 0.87:
             t, m = gen_subst_inproc(rng, i, multi_cpu)
-        elif r < 0.93:
+        elif r < 0.91:
             t, m = gen_subst_status(rng, i)
+        elif r < 0.95:
+            t, m = gen_subst_mb(rng, i)
         else:
             t, m = gen_read(rng, i)
         text += t
@@ -347,6 +371,8 @@ def judge(run, item):
         elif m["kind"] == "subst":
             if mb.get("@or." + tag) != mh.get("@or." + tag):
                 bad.append(("subst-status-in-and-or", "%s: brush %r bash %r" % (tag, mb.get("@or." + tag), mh.get("@or." + tag))))
+            if mb.get("@ck." + tag) != mh.get("@ck." + tag):
+                bad.append(("subst-bytes-differ", "%s: cksum brush %r bash %r" % (tag, mb.get("@ck." + tag), mh.get("@ck." + tag))))
             if mb.get("@sx." + tag) != mh.get("@sx." + tag):
                 bad.append(("subst-status-or-length", "%s: brush %r bash %r" % (tag, mb.get("@sx." + tag), mh.get("@sx." + tag))))
             if rb["sink"].get(tag + "v") != rh["sink"].get(tag + "v"):
